@@ -765,16 +765,19 @@ structure FS where
   itfile : Option Str
   caches : List (Nat × ContentData)
 
+/-- directory entries of `output-<r>/<simname>/` -/
+def filesOf (S : Sim) (r : Nat) : List H5File :=
+  match S.restarts.find? (fun d => d.nbr == r) with
+  | some d => d.files
+  | none => []
+
 /-- `get_content(param, restart=r, overwrite=ow)` -/
 def getContent (T : Tables) (S : Sim) (r : Nat) (ow : Bool) (fs : FS) : FS × VarsAndFiles :=
   let cache := if ow then none else dget fs.caches r
   match cache with
   | some cd => (fs, fromContentData cd)
   | none =>
-    let files := match S.restarts.find? (fun d => d.nbr == r) with
-      | some d => d.files
-      | none => []
-    let vf := scanContent T (restartPath S.simpath S.simname r) files
+    let vf := scanContent T (restartPath S.simpath S.simname r) (filesOf S r)
     ({ fs with caches := dset fs.caches r (toContentData vf) }, vf)
 
 /-! ## 9. `iterations()` -/
@@ -915,6 +918,20 @@ structure LoopState where
   stale : Option (Bool × Str)
   err : Option Err
 
+/-- one pass of `for restart in all_restarts` on the whole state -/
+def loopStep (T : Tables) (S : Sim) (ls : LoopState) (r : Nat) : LoopState :=
+  match ls.err with
+  | some _ => ls
+  | none =>
+    match S.restarts.find? (fun d => d.nbr == r) with
+    | none => ls
+    | some dir =>
+      let cf := getContent T S r false ls.fs
+      let p := processRestart T S dir cf.2 ls.stale
+      -- ' === restart r' is written before get_content is called
+      { fs := { cf.1 with itfile := some (cf.1.itfile.getD [] ++ printLines p.lines) },
+        st := p.lines.foldl applyLine ls.st, stale := p.stale, err := p.err }
+
 /-- `iterations(param, skip_last=…, verbose=False)`: new file-system state and
 the returned dictionary or the exception -/
 def iterationsCall (T : Tables) (S : Sim) (skipLast : Bool) (fs : FS) : FS × Except Err Result :=
@@ -930,19 +947,7 @@ def iterationsCall (T : Tables) (S : Sim) (skipLast : Bool) (fs : FS) : FS × Ex
     | .ok done =>
       let rs := todo S skipLast done
       if rs == [] && done == [] then (fs, .error .importError) else
-      let final := rs.foldl (fun (ls : LoopState) r =>
-          match ls.err with
-          | some _ => ls
-          | none =>
-            match S.restarts.find? (fun d => d.nbr == r) with
-            | none => ls
-            | some dir =>
-              let (fs1, vf) := getContent T S r false ls.fs
-              let p := processRestart T S dir vf ls.stale
-              -- ' === restart r' is written before get_content is called
-              let fs2 := { fs1 with itfile := some (fs1.itfile.getD [] ++ printLines p.lines) }
-              { fs := fs2, st := p.lines.foldl applyLine ls.st, stale := p.stale, err := p.err })
-        { fs := fs, st := (cat0, none), stale := none, err := none }
+      let final := rs.foldl (loopStep T S) { fs := fs, st := (cat0, none), stale := none, err := none }
       match final.err with
       | some e => (final.fs, .error e)
       | none =>
